@@ -645,8 +645,14 @@ pub fn entry<P: Property>(has_fuzz: bool) -> Entry {
 
 /// strict evaluation (replay / fuzz): known findings are NOT tolerated
 pub fn strict_eval<P: Property>(case: &P::Case) -> Outcome {
+    strict_eval_opt::<P>(case, true)
+}
+
+/// `probe`: try the case in a forked child first (replay), so that a case which kills the process is reported
+/// instead of killing the replay; the fuzz targets skip the probe (libFuzzer saves a crashing input itself)
+pub fn strict_eval_opt<P: Property>(case: &P::Case, probe: bool) -> Outcome {
     // a case that kills the process (abort, allocation failure, stack overflow) is first tried in a forked child
-    if P::PANIC_IS_VIOLATION {
+    if probe && P::PANIC_IS_VIOLATION {
         if let Ok(o) = fork_check::<P>(case) {
             if o.failure.as_ref().is_some_and(|f| f.signature.starts_with("process-killed/")) {
                 return o;
@@ -669,7 +675,7 @@ pub fn strict_eval<P: Property>(case: &P::Case) -> Outcome {
 pub fn fuzz_one<P: Property>(data: &[u8]) {
     thread_local! { static KNOWN: KnownFindings = load_known(); }
     let Some(case) = P::from_bytes(data) else { return };
-    let out = strict_eval::<P>(&case);
+    let out = strict_eval_opt::<P>(&case, false);
     if let Some(f) = out.failure {
         let known = KNOWN.with(|k| k.known.iter().any(|k| k.property == P::ID && k.signature == f.signature));
         if !known {
